@@ -19,6 +19,8 @@ func init() {
 	register(&Rule{ID: "C06.R3", Prop: "C06", Floor: 3, Doc: "apply and revert classify element diffs identically and pass them in corresponding positions", Run: c06r3})
 	register(&Rule{ID: "C06.R5", Prop: "C06", Floor: 2, Doc: "the wallet's relevance tests examine every output and every input of a transaction", Run: c06r5})
 	register(&Rule{ID: "C06.R6", Prop: "C06", Floor: 1, Doc: "a loop that removes the element at its current position from the list it walks does not move on to the next position without compensating (reference stores included)", Run: c06r6})
+	register(&Rule{ID: "C06.R7", Prop: "C06", Floor: 1, Doc: "a store's revert step rewrites its event list before every success return (also when the block left no element diffs)", Run: c06r7})
+	register(&Rule{ID: "C06.R8", Prop: "C06", Floor: 1, Doc: "the index a revert is announced under carries the reverted block's own id (Block.ID()), never the parent's index", Run: c06r8})
 	register(&Rule{ID: "C06.R4", Prop: "C06", Floor: 1, Doc: "payouts of one element to the wallet are tested independently (host and renter output of a v2 contract)", Run: c06r4})
 }
 
@@ -966,5 +968,148 @@ func c06r6(c *Ctx) {
 				}
 			}
 		})
+	}
+}
+
+// c06r7: a store's revert step removes the events of the reverted index whenever it succeeds — also for a block that
+// created and spent the wallet's outputs internally (no element diffs, but events). In every repository
+// implementation of UpdateTx.WalletRevertIndex every success return lies behind a write of the store's event list,
+// and the comparison that decides which events go uses the index parameter.
+func c06r7(c *Ctx) {
+	iface := c.P.Method("wallet", "UpdateTx", "WalletRevertIndex")
+	eventT := c.P.Named("wallet", "Event")
+	n := 0
+	for _, raw := range c.P.Funcs {
+		if raw.Obj == nil || raw.Lit != nil || raw.Obj.Name() != iface.Name() || raw.Obj.Type().(*types.Signature).Recv() == nil {
+			continue
+		}
+		if !types.Identical(types.NewSignatureType(nil, nil, nil, raw.Obj.Type().(*types.Signature).Params(), raw.Obj.Type().(*types.Signature).Results(), false),
+			types.NewSignatureType(nil, nil, nil, iface.Type().(*types.Signature).Params(), iface.Type().(*types.Signature).Results(), false)) {
+			continue
+		}
+		f := c.P.Expand(raw, ir.ExpandOpt{Key: "all"})
+		g := f.Graph()
+		c.VisitGraph(f)
+		n++
+		ob := c.Ob(f, "revert-drops-events-on-every-path", f.Body.Pos())
+		isEvents := func(t types.Type) bool {
+			sl, ok := t.Underlying().(*types.Slice)
+			return ok && types.Identical(sl.Elem(), eventT)
+		}
+		writesEvents := func(nd *cfgx.Node) bool {
+			if nd.AST == nil {
+				return false
+			}
+			for _, w := range f.WritesIn(nd.AST, false) {
+				if fld := f.FieldOf(w.LHS); fld != nil && isEvents(fld.Type()) {
+					return true
+				}
+			}
+			return false
+		}
+		any := false
+		for _, nd := range g.Nodes {
+			if writesEvents(nd) {
+				any = true
+			}
+		}
+		if !any {
+			ob.Bad(nil, "%s never rewrites the store's event list: events of reverted blocks stay", f.Name())
+			continue
+		}
+		reach := g.Reach([]*cfgx.Visit{cfgx.StartAt(g.Entry, 0)}, writesEvents)
+		bad := false
+		for _, r := range g.Returns() {
+			if _, isRet := r.AST.(*ast.ReturnStmt); !isRet || f.ClassifyReturn(r) == ir.RetError {
+				continue
+			}
+			if v, leak := reach[r]; leak {
+				ob.Bad(c.Witness(v), "%s can return success at %s without having filtered the event list: a reverted block that only passed coins through the wallet (no element diffs) leaves its events behind", f.Name(), c.P.Pos(r.Pos()))
+				bad = true
+				break
+			}
+		}
+		if !bad {
+			ob.OK("every success return follows the rewrite of the event list")
+		}
+	}
+	if n == 0 {
+		ir.Fail("no repository implementation of UpdateTx.WalletRevertIndex found")
+	}
+}
+
+// c06r8: the index a revert is announced under is the reverted block's own: its id comes from that update's
+// Block.ID() (and the height from the state the update leads to, plus one). The store deletes events by exactly this
+// index; the parent's index — what State.Index holds — deletes the events of a block that stays and keeps those of
+// the block that goes.
+func c06r8(c *Ctx) {
+	revertIdx := c.P.Method("wallet", "UpdateTx", "WalletRevertIndex")
+	n := 0
+	for _, f := range c.P.Views("wallet", ir.ExpandOpt{Key: "all"}).Roots {
+		calls := f.CallsTo(false, revertIdx)
+		if len(calls) == 0 {
+			continue
+		}
+		g := f.Graph()
+		c.VisitGraph(f)
+		for _, call := range calls {
+			n++
+			ob := c.Ob(f, "reverted-index-is-the-blocks-own", call.Pos())
+			at := g.NodeContaining(call.Pos())
+			// the values the index argument can hold here
+			var vals []ast.Expr
+			arg := ast.Unparen(call.Expr.Args[0])
+			if o, ok := f.ObjOf(arg).(*types.Var); ok && !o.IsField() {
+				for _, d := range ReachingDefs(f, o, at) {
+					if d == nil || d.AST == nil {
+						vals = append(vals, nil) // a parameter: the caller's business
+						continue
+					}
+					for _, w := range f.WritesIn(d.AST, false) {
+						if f.ObjOf(w.LHS) == types.Object(o) {
+							vals = append(vals, w.RHS)
+						}
+					}
+				}
+			} else {
+				vals = append(vals, arg)
+			}
+			ok, why := true, ""
+			for _, v := range vals {
+				if v == nil {
+					continue
+				}
+				cl, isLit := ast.Unparen(v).(*ast.CompositeLit)
+				if !isLit {
+					// a declaration without value is a zero index that a later assignment replaces on every path
+					// (reaching definitions list it only if it can arrive)
+					ok, why = false, ir.ExprString(v)
+					continue
+				}
+				idOK := false
+				for _, el := range cl.Elts {
+					kv, isKV := el.(*ast.KeyValueExpr)
+					if !isKV {
+						continue
+					}
+					if k, isID := kv.Key.(*ast.Ident); isID && k.Name == "ID" {
+						if idc, isCall := ast.Unparen(origin(f, kv.Value)).(*ast.CallExpr); isCall {
+							if sel, isSel := ast.Unparen(idc.Fun).(*ast.SelectorExpr); isSel && sel.Sel.Name == "ID" {
+								if inner, isSel := ast.Unparen(sel.X).(*ast.SelectorExpr); isSel && inner.Sel.Name == "Block" {
+									idOK = true
+								}
+							}
+						}
+					}
+				}
+				if !idOK {
+					ok, why = false, ir.ExprString(v)
+				}
+			}
+			ob.Check(ok, nil, "the index handed to WalletRevertIndex at %s can be %s, which is not {ID: <update>.Block.ID(), …}: the store then deletes the events of another block (the parent, which stays) and keeps the reverted block's", c.P.Pos(call.Pos()), why)
+		}
+	}
+	if n == 0 {
+		ir.Fail("the wallet does not call UpdateTx.WalletRevertIndex")
 	}
 }
